@@ -530,9 +530,11 @@ def rows_check(ctx, pkg, test, module, env=None, timeout=1200, workers=2, rows_n
             ek.update(e)
             ek.update({"VERIF_OUT": d, "VERIF_SHARD": "%d/%d" % (k, shards), "VERIF_SKIPFILE": skipfile,
                        "VERIF_APPEND": "1" if resumed.get(k) else ""})
+            # output goes to a file: a pipe that nobody drains while the other shards are awaited fills up (64 KB)
+            # and blocks the driver in write(2)
+            lf = open(os.path.join(d, "driver.log"), "a")
             return subprocess.Popen([binary, "-test.run", test, "-test.count=1", "-test.timeout", "%ds" % timeout],
-                                    cwd=os.path.join(REPO, pkg), env=ek, stdout=subprocess.PIPE,
-                                    stderr=subprocess.STDOUT, text=True, errors="replace")
+                                    cwd=os.path.join(REPO, pkg), env=ek, stdout=lf, stderr=subprocess.STDOUT)
         skipfiles = {k: os.path.join(out, "skip-%d.txt" % k) for k in range(shards)}
         for f in skipfiles.values():
             open(f, "w").close()
@@ -544,11 +546,15 @@ def rows_check(ctx, pkg, test, module, env=None, timeout=1200, workers=2, rows_n
             k = pending.pop(0)
             p = procs[k]
             try:
-                o, _ = p.communicate(timeout=max(1, t_end - time.time()))
+                p.wait(timeout=max(1, t_end - time.time()))
             except subprocess.TimeoutExpired:
                 for q in procs.values():
                     q.kill()
                 raise Inconclusive("row driver %s shard %d timed out" % (test, k))
+            lp = os.path.join(out, "shard-%d" % k, "driver.log")
+            with open(lp, errors="replace") as fh:
+                fh.seek(max(0, os.path.getsize(lp) - 400000))
+                o = fh.read()
             if p.returncode != 0:
                 d = os.path.join(out, "shard-%d" % k)
                 m = re.search(r"^panic: (.*)$", o, re.M)
